@@ -26,7 +26,12 @@ type vStmt struct {
 // assigned columns are explored as choices.
 func vSymStmt(i int, kinds int) vStmt {
 	is := string(rune('0' + i))
-	s := vStmt{kind: symChoice("kind"+is, kinds), t: symInt64("t" + is), b: symInt64("b" + is), c: symInt64("c" + is)}
+	s := vStmt{t: symInt64("t" + is), b: symInt64("b" + is), c: symInt64("c" + is)}
+	if shape := symParam("shape", 0); shape == 1 {
+		s.kind = []int{vINS, vUPD, vUPD, vDEL}[i%4] // two updates, then a delete with an arbitrary write time
+	} else {
+		s.kind = symChoice("kind"+is, kinds)
+	}
 	s.cNull = symParam("nulls", 1) == 1 && s.kind == vINS && symChoice("cnull"+is, 2) == 1
 	symAssume(vTimeOK(s.t))
 	switch s.kind {
@@ -166,10 +171,13 @@ func VerifH_C02_history() {
 		w[i] = vMustOpen(bkt.client(1+i), vTableOpts{bf: 2}, int64(10+i))
 	}
 	st := make([]vStmt, n)
+	ties := symParam("ties", 0) == 1 // C15: arbitrary write times, including equal ones on different statements
 	for i := range st {
 		st[i] = vSymStmt(i, 3)
 		for j := 0; j < i; j++ {
-			symAssume(st[i].t != st[j].t) // distinct write times per key
+			if !ties {
+				symAssume(st[i].t != st[j].t) // distinct write times per key
+			}
 		}
 		if i > 0 {
 			st[i].writer = symChoice("writer", nw)
@@ -196,8 +204,10 @@ func VerifH_C02_history() {
 		if retryAfter == i {
 			before := vSee(w[st[n].writer])
 			st[n].eff = vExec(w[st[n].writer], st[n])
-			if st[n].writer == st[retryOf].writer && st[retryOf].eff && retryAfter == retryOf {
-				symAssert(vSameVisible(before, vSee(w[st[n].writer])), "immediate-retry-changes-nothing")
+			if st[n].writer == st[retryOf].writer && st[retryOf].eff && syncAt == 0 {
+				// the writer has executed the statement before: executing it again
+				// (same write_time, same values) leaves its table unchanged
+				symAssert(vSameVisible(before, vSee(w[st[n].writer])), "retry-on-the-same-writer-changes-nothing")
 			}
 		}
 		if syncAt == i+1 && i+1 < n {
@@ -224,6 +234,12 @@ func VerifH_C02_history() {
 	got := vSee(r)
 	want := vOracle(st)
 	symObserve("live", got.live)
+	if ties {
+		// with equal write times on different statements the documented rules
+		// leave the outcome open; only the retry assertion applies
+		symReach("end")
+		return
+	}
 	symAssert(got.live == want.live, "row-status-decided-by-latest-insert-or-delete")
 	if got.live && want.live {
 		symAssert(symDeepEq(got.b, want.b), "column-b-holds-latest-assignment")
